@@ -210,6 +210,12 @@ func VerifyDualProof(proof *DualProof, sourceTxID, targetTxID uint64, sourceAlh,
 
 	} else {
 
+		// the source transaction is the last leaf of the target Merkle Tree: the leaf proven
+		// through the LastInclusionProof must be the source transaction itself
+		if sourceTxID == proof.TargetTxHeader.BlTxID && proof.TargetBlTxAlh != sourceAlh {
+			return false
+		}
+
 		verifies := VerifyLinearProof(proof.LinearProof, sourceTxID, targetTxID, sourceAlh, targetAlh)
 		if !verifies {
 			return false
